@@ -9,6 +9,9 @@ from .ops import DictView, fact_key
 _ABSENT = object()
 
 
+# attributes a class object has through its metaclass chain ending in `type` (and `object`)
+TYPE_ATTRIBUTES = frozenset(n for n in dir(type) if n not in ("__name__", "__doc__", "__module__", "__dict__", "__getattr__", "__getitem__"))
+
 class AccessMixin:
     # ------------------------------------------------------------------
     # attributes
@@ -104,18 +107,28 @@ class AccessMixin:
                     return BoundMethod(v, obj)
             if name == "__name__":
                 return getattr(obj, "type_name", None) or "Enum"
+            if name in TYPE_ATTRIBUTES:
+                return Unknown("type.%s" % name)                   # what every class object inherits from `type` / `object`
             if obj.cls is not None and not name.startswith("__"):
                 ga, owner = obj.cls.lookup("__getattr__")        # a metaclass fallback for names the class does not have
                 if isinstance(ga, FuncVal):
                     return self.call_function(ga, [obj, name], {}, node, frame)
             return self.attr_error(obj, name, node, frame)
         if isinstance(obj, External):
+            w = getattr(obj, "written", None)
+            if w is not None and name in w:
+                return w[name]           # the repository's own code stored this attribute on the binding's object
             hook = getattr(self, "external_attr_hook", None)
             if hook is not None:
                 hook(obj, name, node, frame)        # may fork on "the binding's object has no such attribute"
             r = External(obj.name + "." + name)
-            if name == "st_ino" and getattr(obj, "inode_gen", None) is not None:
-                r.inode_gen = obj.inode_gen
+            r.parent = obj
+            if self.loading and not self.exploring:
+                r.at_import = True       # the object the name referred to when the module was imported
+            if obj.name.startswith("stat#"):
+                r.stat_field = name              # a field of a stat result: the same for the same node
+                if getattr(obj, "inode_gen", None) is not None:
+                    r.inode_gen = obj.inode_gen
             return r
         if isinstance(obj, Unknown):
             return Unknown("attr %s of unknown(%s)" % (name, obj.reason))
@@ -240,6 +253,12 @@ class AccessMixin:
             return
         if isinstance(obj, (External, Unknown, SymAny)):
             self.event("external-attr-store", obj=obj, name=name, value=v, where=frame.where(node), node=node)
+            if isinstance(obj, External):
+                w = getattr(obj, "written", None)
+                if w is None:
+                    w = obj.written = {}
+                self.journal.append(("dict", w, None, dict(w)))
+                w[name] = v
             return
         self.attr_error(obj, name, node, frame)
 
@@ -271,8 +290,12 @@ class AccessMixin:
             return External(obj.name + "[]")
         if isinstance(obj, dict):
             if isinstance(key, (Sym, SymAny, SymStr, Unknown)):
+                guarded = any(t & {"*", "KeyError", "LookupError", "Exception", "BaseException"} for t in self.try_stack)
                 self.event("dynamic-dict-lookup", obj=obj, key=key, where=frame.where(node), node=node,
-                           origin=self.origin_of.get(id(obj)))
+                           origin=self.origin_of.get(id(obj)), guarded=guarded)
+                if guarded and self.decide("the key is not in the table", node, frame):
+                    # the code itself expects a miss (it subscripts under a handler for KeyError): evaluate that path
+                    return self.key_error(key, node, frame, obj)
                 return Unknown("dict lookup with dynamic key")
             try:
                 if key in obj:
@@ -385,7 +408,58 @@ class AccessMixin:
             return Sym(bits=[frozenset([("p", ("cell", id(b), key), j)]) for j in range(8)])
         return Unknown("dynamic index into buffer")
 
+    def cursor_split(self, x):
+        """x = cursor + rest for one loop cursor (an integer variable a summarised loop advances): (cursor name, rest)"""
+        x = norm_int(x)
+        if not isinstance(x, Sym) or x.poly is None or not self.cursors:
+            return None
+        found = None
+        for m, c in x.poly.items():
+            for name in m:
+                if isinstance(name, tuple) and name and name[0] == "loopvar" and name in self.cursors:
+                    if len(m) != 1 or c != 1 or (found is not None and found != name):
+                        return None
+                    found = name
+        if found is None:
+            return None
+        rest = {m: c for m, c in x.poly.items() if m != (found,)}
+        if p_is_const(rest):
+            return found, p_const_value(rest)
+        # (every symbol of a position is a length or a field read: non-negative; the bound holds when no term is subtracted)
+        lo = p_const_value(rest) if all(c >= 0 for m, c in rest.items() if m != ()) else -(1 << 64)
+        return found, Sym(bits=None, poly=rest, lo=lo)
+
+    def cursor_view(self, v, cname):
+        """the view that starts where the cursor stands in v (v itself where the cursor started, advanced by the loop)"""
+        rec = self.cursors[cname]
+        hit = rec["views"].get(id(v))
+        if hit is not None:
+            return hit[1]
+        pre = norm_int(rec["pre"])
+        if isinstance(pre, int):
+            start = pos_add(v.lo, pre)
+        else:
+            start = (("dyn", v.lo, self.sym_name(pre)), 0)
+        W = View(v.root, lo=(("loop", cname[1], cname[2], start), 0), hi=v.hi, hi_val=v.hi_val)
+        W.end = getattr(v, "end", None)
+        W.cursor_of = (v, cname)
+        P = View(v.root, lo=start, hi=v.hi, hi_val=v.hi_val)        # where the walk starts: v from the cursor's first value
+        P.end = getattr(v, "end", None)
+        rec["views"][id(v)] = (v, W, P)
+        return W
+
     def view_get(self, v, key, node, frame):
+        if isinstance(key, slice) and key.step is None:
+            cs = self.cursor_split(key.start)
+            if cs is not None and cs[0][1] in self.loop_stack:
+                ch = self.cursor_split(key.stop) if key.stop is not None else None
+                if key.stop is None or (ch is not None and ch[0] == cs[0]):
+                    W = self.cursor_view(v, cs[0])
+                    return self.view_get(W, slice(cs[1], ch[1] if ch is not None else None), node, frame)
+        elif not isinstance(key, slice):
+            cs = self.cursor_split(key)
+            if cs is not None and cs[0][1] in self.loop_stack and isinstance(cs[1], int):
+                return self.view_get(self.cursor_view(v, cs[0]), cs[1], node, frame)
         if isinstance(key, slice):
             if key.step is not None:
                 return Unknown("stepped slice of view")
